@@ -144,6 +144,7 @@ def cone(cons, t):
 
 
 CTX: Ctx | None = None
+EXP_SECANT = False     # harness option: add the secant (concavity) axiom between exp applications
 FLOAT_HOOK = None      # called with the SymReal whenever float() is taken (concolic printing)
 
 
@@ -680,6 +681,10 @@ def sym_exp(x, reuse=True):
           e >= 1 + a]   # tangent at 0 (convexity)
     for b, w in c.exps:
         ax += [z3.Implies(a < b, e < w), z3.Implies(a > b, e > w), z3.Implies(a == b, e == w)]
+        if EXP_SECANT:
+            # (1 - exp(-x))/x is strictly decreasing for x > 0  (concavity of 1 - exp(-x))
+            ax += [z3.Implies(z3.And(a < 0, b < 0, a < b), (1 - e) * (-b) < (1 - w) * (-a)),
+                   z3.Implies(z3.And(a < 0, b < 0, b < a), (1 - w) * (-a) < (1 - e) * (-b))]
     for t in ax:
         c.add('axioms', t)
     c.exps.append((a, e))
